@@ -96,13 +96,13 @@ theorem nestedStep_simS {b dr : Bool} {R1 R2 : Runner} (hR : SimRS b dr R1 R2) {
         · rw [g1, g2]; exact .ok _ (nestedMerge_relS he hr hrj)
         · rw [g1, g2]
           exact .fail (nestedMerge_relS he hr hrj)
-            ⟨nestedMerge_alt_isSome he.ek1 _ _ hsm.1, nestedMerge_alt_isSome he.ek2 _ _ hsm.2⟩
+            ⟨nestedMerge_pending he.ek1 _ _ hsm.1, nestedMerge_pending he.ek2 _ _ hsm.2⟩
         · rw [g1, g2]; exact .panic w
         · rw [g1, g2]; exact .oof
       · rw [f1, f2]
         simp only [Out.andThen]
         exact .fail (nestedMerge_relS he hr hri)
-          ⟨nestedMerge_alt_isSome he.ek1 _ _ hsm.1, nestedMerge_alt_isSome he.ek2 _ _ hsm.2⟩
+          ⟨nestedMerge_pending he.ek1 _ _ hsm.1, nestedMerge_pending he.ek2 _ _ hsm.2⟩
       · rw [f1, f2]; exact .panic w
       · rw [f1, f2]; exact .oof
   · rw [e1, e2]; exact .fail hr hsm
